@@ -5,6 +5,7 @@ import (
 	"fmt"
 	"image/color"
 	"math"
+	"time"
 
 	"verifharness/internal/core"
 )
@@ -259,11 +260,17 @@ func runC01(r *core.Run) {
 			}
 		}
 	}
+	if r.Variant == "" {
+		for _, v := range []string{"encfirst", "encfirst+rev"} {
+			r.RunVariantChild(v, 10*time.Minute, false)
+		}
+		r.Obs("fresh_process_variants", []string{"encfirst", "encfirst+rev"})
+	}
 	r.Obs("max_abs_error_per_space", maxErr)
 	r.Obs("code_of_max_error_per_space", maxAt)
 	r.Obs("entry_points", append(append([]string{}, c01Entries8...), c01Entries16...))
-	r.Sample(map[string]any{"space": "srgb", "entry": "From16Bit", "code": 32768, "decoded": libSpaces[0].From16(32768)})
-	r.Sample(map[string]any{"space": "prophotorgb", "entry": "From8Bit", "code": 7, "decoded": libSpaces[2].From8(7)})
+	r.Sample(map[string]any{"space": "srgb", "entry": "From16Bit", "code": 32768, "decoded": spaceByName("srgb").From16(32768)})
+	r.Sample(map[string]any{"space": "prophotorgb", "entry": "From8Bit", "code": 7, "decoded": spaceByName("prophotorgb").From8(7)})
 }
 
 func replayC01(stage string, raw json.RawMessage) (bool, string, error) {
@@ -305,5 +312,5 @@ func replayC01(stage string, raw json.RawMessage) (bool, string, error) {
 }
 
 func init() {
-	core.Register(&core.Property{ID: "C01", Level: "exploration", Run: runC01, Replay: replayC01})
+	core.Register(&core.Property{ID: "C01", Level: "exploration", Run: runC01, Replay: replayC01, Child: variantChild("C01", "exploration", runC01)})
 }
